@@ -28,6 +28,7 @@ type FuncInfo struct {
 	FreeDecl string // for func literals: captured variables "shard *lockedMap[V], cb func(V) bool"
 	FreeNames []string
 	Loops    []ast.Node // loop statements in source order (not inside nested literals)
+	Reassigned map[string]bool
 }
 
 type genPkg struct {
@@ -387,6 +388,10 @@ func (g *genPkg) genFunc(fi *FuncInfo, specNames map[string]bool) error {
 		c.GoName = g.fresh(base + "_ens")
 		g.emitBoolFunc(c.GoName, fi.TParams, post, c.Expr, c.Line, "ensures")
 	}
+	for _, c := range fc.Assumes {
+		c.GoName = g.fresh(base + "_asm")
+		g.emitBoolFunc(c.GoName, fi.TParams, post, c.Expr, c.Line, "assumes")
+	}
 	known := map[string]bool{}
 	for _, n := range fi.ParamNames {
 		known[n] = true
@@ -394,8 +399,57 @@ func (g *genPkg) genFunc(fi *FuncInfo, specNames map[string]bool) error {
 	for _, n := range fi.FreeNames {
 		known[n] = true
 	}
+	// parameters that the body reassigns: inside loop and anchor clauses their name
+	// denotes the current value and <name>0 the entry value
+	reassigned := map[string]bool{}
+	if fi.Decl != nil && fi.Decl.Body != nil {
+		var body ast.Node = fi.Decl.Body
+		if fi.Lit != nil {
+			body = fi.Lit.Body
+		}
+		mark := func(e ast.Expr) {
+			if id, ok := e.(*ast.Ident); ok && known[id.Name] {
+				if v, ok := fi.Pkg.TypesInfo.ObjectOf(id).(*types.Var); ok && !v.IsField() {
+					for _, n := range fi.ParamNames {
+						if n == id.Name {
+							reassigned[n] = true
+						}
+					}
+				}
+			}
+		}
+		ast.Inspect(body, func(n ast.Node) bool {
+			switch x := n.(type) {
+			case *ast.AssignStmt:
+				if x.Tok != token.DEFINE {
+					for _, l := range x.Lhs {
+						mark(l)
+					}
+				}
+			case *ast.IncDecStmt:
+				mark(x.X)
+			}
+			return true
+		})
+	}
+	preLoop := pre
+	if len(reassigned) > 0 {
+		var parts []string
+		for _, d := range strings.Split(pre, ", ") {
+			nt := strings.SplitN(d, " ", 2)
+			if len(nt) == 2 && reassigned[nt[0]] {
+				parts = append(parts, nt[0]+"0 "+nt[1])
+				delete(known, nt[0])
+			} else {
+				parts = append(parts, d)
+			}
+		}
+		preLoop = strings.Join(parts, ", ")
+	}
+	fi.Reassigned = reassigned
+	var anchorPos token.Pos
 	loopDecl := func(k int, expr string) (string, []string, error) {
-		if k < 1 || k > len(fi.Loops) {
+		if k != 0 && (k < 1 || k > len(fi.Loops)) {
 			return "", nil, fmt.Errorf("%s: loop %d does not exist (function has %d loops)", fc.Key(), k, len(fi.Loops))
 		}
 		ids, err := freeIdents(rewriteExpr(expr))
@@ -404,13 +458,20 @@ func (g *genPkg) genFunc(fi *FuncInfo, specNames map[string]bool) error {
 		}
 		var decl, locals []string
 		var lpos token.Pos
-		switch l := fi.Loops[k-1].(type) {
-		case *ast.ForStmt:
-			lpos = l.Body.Pos()
-		case *ast.RangeStmt:
-			lpos = l.Body.Pos()
+		if k == 0 {
+			lpos = anchorPos
+		} else {
+			switch l := fi.Loops[k-1].(type) {
+			case *ast.ForStmt:
+				lpos = l.Body.Pos()
+			case *ast.RangeStmt:
+				lpos = l.Body.Pos()
+			}
 		}
 		for _, n := range ids {
+			if strings.HasSuffix(n, "0") && reassigned[strings.TrimSuffix(n, "0")] {
+				continue
+			}
 			if known[n] || strings.HasPrefix(n, "gc") {
 				continue
 			}
@@ -448,7 +509,7 @@ func (g *genPkg) genFunc(fi *FuncInfo, specNames map[string]bool) error {
 			}
 			c.Locals = locals
 			c.GoName = g.fresh(fmt.Sprintf("%s_loop%d_inv", base, k))
-			g.emitBoolFunc(c.GoName, fi.TParams, joinDecl(pre, d), c.Expr, c.Line, fmt.Sprintf("loop %d invariant", k))
+			g.emitBoolFunc(c.GoName, fi.TParams, joinDecl(preLoop, d), c.Expr, c.Line, fmt.Sprintf("loop %d invariant", k))
 		}
 	}
 	for k, c := range fc.LoopDec {
@@ -458,7 +519,52 @@ func (g *genPkg) genFunc(fi *FuncInfo, specNames map[string]bool) error {
 		}
 		c.Locals = locals
 		c.GoName = g.fresh(fmt.Sprintf("%s_loop%d_dec", base, k))
-		fmt.Fprintf(&g.buf, "func %s%s(%s) int { return int(%s) }\n", c.GoName, fi.TParams, joinDecl(pre, d), rewriteExpr(c.Expr))
+		fmt.Fprintf(&g.buf, "func %s%s(%s) int { return int(%s) }\n", c.GoName, fi.TParams, joinDecl(preLoop, d), rewriteExpr(c.Expr))
+	}
+	for _, a := range fc.Anchors {
+		// position of the k-th call of the callee in source order
+		anchorPos = token.NoPos
+		cnt := 0
+		var body ast.Node = fi.Decl.Body
+		if fi.Lit != nil {
+			body = fi.Lit.Body
+		}
+		ast.Inspect(body, func(n ast.Node) bool {
+			if n != body {
+				if _, ok := n.(*ast.FuncLit); ok {
+					return false
+				}
+			}
+			ce, ok := n.(*ast.CallExpr)
+			if !ok {
+				return true
+			}
+			name := ""
+			switch f := ce.Fun.(type) {
+			case *ast.Ident:
+				name = f.Name
+			case *ast.SelectorExpr:
+				name = f.Sel.Name
+			}
+			if name == a.Callee {
+				cnt++
+				if cnt == a.Ord {
+					anchorPos = ce.Pos()
+				}
+			}
+			return true
+		})
+		if anchorPos == token.NoPos {
+			return fmt.Errorf("%s: call %s#%d not found", fc.Key(), a.Callee, a.Ord)
+		}
+		a.Pos = anchorPos
+		d, locals, err := loopDecl(0, a.C.Expr)
+		if err != nil {
+			return err
+		}
+		a.C.Locals = locals
+		a.C.GoName = g.fresh(base + "_assert")
+		g.emitBoolFunc(a.C.GoName, fi.TParams, joinDecl(preLoop, d), a.C.Expr, a.C.Line, "assert at call "+a.Callee)
 	}
 	for lab, cs := range fc.LabelInv {
 		for _, c := range cs {
@@ -543,6 +649,14 @@ func generate(pkg *packages.Package, cf *ContractFile) (string, map[string]*Func
 		}
 		li.GoName = g.fresh("lockinv_" + sanitize(li.Type+"_"+li.Mutex))
 		fmt.Fprintf(&g.buf, "func %s%s(%s *%s%s) bool { return %s }\n", li.GoName, tparams, li.Param, li.Type, targs, rewriteExpr(li.Expr))
+		for _, m := range li.Guards {
+			m.GoName = g.fresh("guard_" + sanitize(li.Type))
+			ex := rewriteExpr(m.Expr)
+			if !m.All {
+				ex = "&" + ex
+			}
+			fmt.Fprintf(&g.buf, "func %s%s(%s *%s%s) any { return %s }\n", m.GoName, tparams, li.Param, li.Type, targs, ex)
+		}
 	}
 	for _, fc := range cf.Funcs {
 		fi, err := findFunc(pkg, fc)
